@@ -22,20 +22,120 @@ ASSUMPTIONS = ["agreement of differently spelled tests is established on the pro
 UNIT = "pretty-format.c"
 
 
+KW_PROBES = ["true", "false", "nil", "inf", "now", "immediately", "truex", "fals", "nile", "info", "nowhere", "immediate", "t", "n"]
+
+
 def keyword_table_checker(u, fn, sw):
-    """{keyword: tag} from `if(skip_word("kw", &src)) *type = 'X';` chains"""
+    """{word: tag} - what the checker makes of a word that starts with one of its keyword letters, decided by evaluating
+    the case of the first-character switch on the word (skip_word, skip_identifier and any other helper of the unit are
+    evaluated in place; a table of keywords is read through its initialiser).  A word that comes out as an identifier
+    ('S') or is not accepted is left out."""
+    from ..rules import codec as _C
+    tab = _C.case_table(sw)
+    srcp = [p_ for p_ in u.params(fn) if A.ref_id(A.kids(A.strip_casts(A.kids(sw)[0]))[0]) == p_["id"]]
+    if len(srcp) != 1:
+        raise AnalysisBroken("checker: the cursor the first-character switch reads was not recognised")
+    src_id = srcp[0]["id"]
+    typep = [p_ for p_ in u.params(fn) if (A.qtype(p_) or "").replace(" ", "") == "char*"]
+    if len(typep) != 1:
+        raise AnalysisBroken("checker: the type output parameter was not recognised")
+    BASE, TCELL = 1 << 16, 64
     out = {}
-    for x in A.walk(A.kids(sw)[-1]):
-        if x.get("kind") == "IfStmt":
-            c = A.strip_casts(A.kids(x)[0])
-            if c.get("kind") == "CallExpr" and A.callee_name(c) == "skip_word":
-                kw = A.string_literal(A.kids(c)[1])
-                then = A.kids(x)[1]
-                tags = [A.int_literal(A.kids(y)[1]) for y in A.walk(then) if y.get("kind") == "BinaryOperator" and y.get("opcode") == "=" and
-                        A.strip_casts(A.kids(y)[0]).get("kind") == "UnaryOperator"]
-                tags = [t for t in tags if t is not None]
-                if kw and len(tags) == 1:
-                    out[kw] = chr(tags[0])
+    for word in KW_PROBES:
+        stmts = tab.get(ord(word[0]))
+        if stmts is None:
+            continue
+        text = word + " 1"
+        got = {}
+        holder = {}
+
+        def deref(a, n, text=text):
+            if isinstance(a, tuple) and a[0] == "addr":
+                return holder["ev"].env[a[1]]
+            if BASE <= a <= BASE + len(text):
+                return ord(text[a - BASE]) if a - BASE < len(text) else 0
+            if a == TCELL:
+                return got.get("type", 0)
+            raise FD.Unknown("read outside the probe word", n)
+
+        def store(a, v, n):
+            if isinstance(a, tuple) and a[0] == "addr":
+                holder["ev"].env[a[1]] = v
+            elif a == TCELL:
+                got["type"] = v
+            else:
+                raise FD.Unknown("store outside the outputs", n)
+
+        def strval(v, text=text):
+            if isinstance(v, str):
+                return v
+            if isinstance(v, int) and BASE <= v <= BASE + len(text):
+                return text[v - BASE:]
+            raise FD.Unknown("string operand %r" % (v,))
+
+        def hook(n, ev):
+            k = n.get("kind")
+            if k == "StringLiteral":
+                return A.string_literal(n)
+            if k == "ImplicitCastExpr" and n.get("castKind") == "ArrayToPointerDecay" and A.string_literal(A.kids(n)[0]) is not None:
+                return A.string_literal(A.kids(n)[0])
+            if k == "UnaryOperator" and n.get("opcode") == "&" and A.strip_casts(A.kids(n)[0]).get("kind") == "DeclRefExpr":
+                return ("addr", A.ref_id(A.kids(n)[0]))
+            if k in ("MemberExpr", "ArraySubscriptExpr"):
+                r_ = FD.const_aggregate(u, n, ev)
+                if r_ is not NotImplemented:
+                    return r_
+                if k == "ArraySubscriptExpr":
+                    b_ = ev.ev(A.kids(n)[0])
+                    if isinstance(b_, str):
+                        i_ = ev.ev(A.kids(n)[1])
+                        return ord(b_[i_]) if 0 <= i_ < len(b_) else 0
+            if k == "BinaryOperator" and n.get("opcode") == "&":
+                enum = [y["referencedDecl"]["name"] for y in A.walk(A.kids(n)[1]) if y.get("kind") == "DeclRefExpr" and (y.get("referencedDecl") or {}).get("kind") == "EnumConstantDecl"]
+                subs = [y for y in A.walk(A.kids(n)[0]) if y.get("kind") == "ArraySubscriptExpr"]
+                if len(enum) == 1 and enum[0].startswith("_IS") and subs:
+                    v = ev.ev(A.kids(subs[0])[1])
+                    c = chr(v) if 0 < v < 128 else ""
+                    pred = {"_ISalpha": str.isalpha, "_ISdigit": str.isdigit, "_ISalnum": str.isalnum, "_ISspace": str.isspace}.get(enum[0])
+                    if pred is None:
+                        raise FD.Unknown("ctype class " + enum[0], n)
+                    return 1 if c and pred(c) else 0
+            return NotImplemented
+
+        def call(nm, vals, n):
+            ev = holder["ev"]
+            if nm == "strlen":
+                return len(strval(vals[0]).split("\0")[0]) if isinstance(vals[0], str) else len(strval(vals[0]))
+            if nm in ("strncmp", "memcmp"):
+                a, b = strval(vals[0])[:vals[2]], strval(vals[1])[:vals[2]]
+                return 0 if a == b else (1 if a > b else -1)
+            if nm == "strcmp":
+                a, b = strval(vals[0]), strval(vals[1])
+                return 0 if a == b else (1 if a > b else -1)
+            if nm in ("isspace", "isalnum", "isalpha", "isdigit"):
+                c = chr(vals[0]) if 0 < vals[0] < 128 else ""
+                return 1 if c and getattr(c, nm)() else 0
+            if nm == "strchr" and isinstance(vals[0], str):
+                return 1 if vals[1] and chr(vals[1]) in vals[0] else 0
+            fns_ = [f_ for f_ in u.functions.get(nm, []) if u.body(f_) is not None]
+            if len(fns_) == 1:
+                return ev.call_function(u, fns_[0], vals)
+            raise FD.Unknown("call to %s" % nm, n)
+        ev = FD.Eval(env={src_id: BASE, typep[0]["id"]: TCELL}, deref=deref, store=store, node_hook=hook, call=call, max_steps=3000)
+        holder["ev"] = ev
+        try:
+            for st_ in stmts:
+                ev.run(st_)
+        except FD._Break:
+            pass
+        except FD._Return:
+            pass
+        except FD.Unknown as e:
+            raise AnalysisBroken("checker: keyword case '%s' not evaluable on %r: %s" % (word[0], word, e))
+        t_ = got.get("type")
+        end = ev.env.get(src_id)
+        if t_ and chr(t_) != "S" and end == BASE + len(word):
+            out[word] = chr(t_)
     return out
 
 
